@@ -26,8 +26,17 @@ func runC10(c *Ctx) {
 
 	// ---- R2 operand-sized allocation
 	c.rule("C10-R2", "PAN: in pkg/vm and pkg/decompiler every make(slice|map) whose size, and every slice expression whose bound, derives from readOperand or binary.LittleEndian.Uint32/Uint64 of the input is dominated by a comparison of that value (or a conversion of it) against len(stack) / len(code) / len(bytecode) or a constant whose failing edge returns an error; the same holds for growth calls (slices.Grow, append of make)")
-	fromInput := func(v ssa.Value) bool {
+	// struct fields that hold a value decoded from the input (e.g. the header's code length): a later load of such a
+	// field is as untrusted as the decode itself
+	taintedField := map[string]bool{}
+	var fromInput func(v ssa.Value) bool
+	fromInput = func(v ssa.Value) bool {
 		return derivesFrom(v, func(x ssa.Value) bool {
+			if u, ok := x.(*ssa.UnOp); ok && u.Op == token.MUL {
+				if named, fld, ok := fieldOf(u.X); ok && taintedField[named.Obj().Name()+"."+fld] {
+					return true
+				}
+			}
 			cl, ok := x.(*ssa.Call)
 			if !ok {
 				return false
@@ -35,6 +44,24 @@ func runC10(c *Ctx) {
 			n := callName(cl)
 			return n == vmPath+".VM.readOperand" || strings.HasPrefix(n, "encoding/binary.littleEndian.Uint") || strings.HasPrefix(n, "encoding/binary.bigEndian.Uint") || (cl.Call.IsInvoke() && strings.HasPrefix(cl.Call.Method.Name(), "Uint"))
 		})
+	}
+	for round := 0; round < 3; round++ {
+		for _, rel := range []string{vmPkg, decompPkg} {
+			for _, fn := range c.srcFuncs(rel) {
+				eachInstr(fn, func(_ *ssa.BasicBlock, _ int, ins ssa.Instruction) {
+					st, ok := ins.(*ssa.Store)
+					if !ok {
+						return
+					}
+					if bt, ok := st.Val.Type().Underlying().(*types.Basic); !ok || bt.Info()&types.IsInteger == 0 {
+						return
+					}
+					if named, fld, ok := fieldOf(st.Addr); ok && !taintedField[named.Obj().Name()+"."+fld] && fromInput(st.Val) {
+						taintedField[named.Obj().Name()+"."+fld] = true
+					}
+				})
+			}
+		}
 	}
 	nAlloc := 0
 	for _, rel := range []string{vmPkg, decompPkg} {
@@ -72,6 +99,7 @@ func runC10(c *Ctx) {
 		}
 	}
 	c.Sites["C10-R2#input-sized-allocations"] = nAlloc
+	c.Sites["C10-R2#fields-holding-decoded-sizes"] = len(taintedField)
 	if nAlloc < 2 {
 		c.undecided("C10-R2: %d input-sized allocations found in pkg/vm + pkg/decompiler, floor 2", nAlloc)
 	}
@@ -141,6 +169,64 @@ func runC10(c *Ctx) {
 			c.ob("C10-R3", fnKey(fn)+"#buffer-read-"+itoa(k), ins.Pos(), lenGuarded(fn, buf, ins), "the untrusted buffer is indexed/sliced without a dominating comparison against its length: a truncated file panics (index out of range) instead of being rejected")
 		})
 	}
+	// no wrapping arithmetic on an untrusted value ahead of a test or bound: uint32(off)+length wraps for
+	// length near 2^32, passes `end > len` and then slices out of range
+	nNarrow := 0
+	for _, r := range readers {
+		fn := c.fn(r.rel, r.fn)
+		if fn == nil {
+			continue
+		}
+		k := 0
+		eachInstr(fn, func(_ *ssa.BasicBlock, _ int, ins ssa.Instruction) {
+			bo, ok := ins.(*ssa.BinOp)
+			if !ok || (bo.Op != token.ADD && bo.Op != token.MUL && bo.Op != token.SHL) {
+				return
+			}
+			bt, ok := bo.Type().Underlying().(*types.Basic)
+			if !ok {
+				return
+			}
+			switch bt.Kind() {
+			case types.Uint32, types.Int32, types.Uint16, types.Int16, types.Uint8, types.Int8:
+			default:
+				return
+			}
+			nNarrow++
+			if !(fromInput(bo.X) || fromInput(bo.Y)) {
+				return
+			}
+			is := func(v ssa.Value) bool { return v == ssa.Value(bo) }
+			used := false
+			eachInstr(fn, func(_ *ssa.BasicBlock, _ int, x ssa.Instruction) {
+				switch y := x.(type) {
+				case *ssa.If:
+					if derivesFrom(y.Cond, is) {
+						used = true
+					}
+				case *ssa.Slice:
+					for _, b := range []ssa.Value{y.Low, y.High, y.Max} {
+						if b != nil && derivesFrom(b, is) {
+							used = true
+						}
+					}
+				case *ssa.IndexAddr:
+					if derivesFrom(y.Index, is) {
+						used = true
+					}
+				case *ssa.MakeSlice:
+					if derivesFrom(y.Len, is) || derivesFrom(y.Cap, is) {
+						used = true
+					}
+				}
+			})
+			if used {
+				k++
+				c.ob("C10-R3", fnKey(fn)+"#narrow-arithmetic-on-input-"+itoa(k), bo.Pos(), false, "a value decoded from the input takes part in "+bt.Name()+" arithmetic whose result decides a bounds test or bound: for values near the type's maximum the sum wraps, passes the test, and the access that follows is out of range (panic instead of a diagnostic)")
+			}
+		})
+	}
+	c.Sites["C10-R3#narrow-int-arithmetic-sites-examined"] = nNarrow
 	c.Sites["C10-R3#buffer-reads"] = nReads
 	if nReads < 14 {
 		c.undecided("C10-R3: %d buffer reads found, floor 14", nReads)
@@ -531,6 +617,64 @@ func constTagRule(c *Ctx, rule string) {
 }
 
 // recursionRule: cycles in the parser's static call graph that avoid the depth guard.
+// depthGuardSound: in a depth-guard helper (returns error) every path from entry to a success return (nil error)
+// leaves a block whose branch compares the depth counter with the limit, and one outcome of such a comparison
+// reaches no success return (it reports the overflow). A guard that can be skipped - e.g. `limit > 0 && depth > limit`
+// with a limit some constructor leaves at zero - bounds nothing.
+func depthGuardSound(fn *ssa.Function) (bool, string) {
+	isDepthLoad := func(v ssa.Value) bool {
+		u, ok := v.(*ssa.UnOp)
+		if !ok {
+			return false
+		}
+		_, fld, ok := fieldOf(u.X)
+		return ok && strings.Contains(strings.ToLower(fld), "depth") && !strings.Contains(strings.ToLower(fld), "max") && !strings.Contains(strings.ToLower(fld), "limit")
+	}
+	cmpBlock := map[*ssa.BasicBlock]bool{}
+	for _, b := range fn.Blocks {
+		iff := ifOf(b)
+		if iff == nil {
+			continue
+		}
+		bo, ok := iff.Cond.(*ssa.BinOp)
+		if !ok {
+			continue
+		}
+		switch bo.Op {
+		case token.GTR, token.GEQ, token.LSS, token.LEQ:
+		default:
+			continue
+		}
+		if derivesFrom(bo.X, isDepthLoad) || derivesFrom(bo.Y, isDepthLoad) {
+			cmpBlock[b] = true
+		}
+	}
+	if len(cmpBlock) == 0 {
+		return false, "the helper never compares the depth counter with a limit"
+	}
+	nilReturn := func(x ssa.Instruction) bool {
+		r, ok := x.(*ssa.Return)
+		if !ok {
+			return false
+		}
+		vals := retVals(r)
+		return len(vals) > 0 && isNilConst(vals[len(vals)-1])
+	}
+	q := &pathQuery{fn: fn, target: nilReturn, cutEdge: func(b *ssa.BasicBlock, _ int) bool { return cmpBlock[b] }}
+	if hit, _ := q.fromEntry(); hit != nil {
+		return false, "a path returns success without comparing the depth counter with the limit (the comparison is conditional): when that condition is false, nesting depth is bounded only by the Go stack, whose overflow is fatal"
+	}
+	for b := range cmpBlock {
+		for _, s := range b.Succs {
+			q := &pathQuery{fn: fn, target: nilReturn}
+			if hit, _ := q.from(s, 0); hit == nil {
+				return true, ""
+			}
+		}
+	}
+	return false, "no outcome of the depth comparison reports the overflow: both lead to a success return"
+}
+
 func recursionRule(c *Ctx, rule string) {
 	fns := c.srcFuncs(parserPkg)
 	inPkg := map[*ssa.Function]bool{}
@@ -538,6 +682,7 @@ func recursionRule(c *Ctx, rule string) {
 		inPkg[f] = true
 	}
 	guarded := map[*ssa.Function]bool{}
+	helperChecked := map[*ssa.Function]bool{}
 	for _, f := range fns {
 		// increments a depth field and compares it
 		inc, cmp := false, false
@@ -580,6 +725,11 @@ func recursionRule(c *Ctx, rule string) {
 					})
 					if i2 && c2 {
 						inc, cmp = true, true
+						if !helperChecked[sf] {
+							helperChecked[sf] = true
+							ok, why := depthGuardSound(sf)
+							c.ob(rule, fnKey(sf)+"#depth-guard-cannot-be-bypassed", sf.Pos(), ok, why)
+						}
 					}
 				}
 			}
